@@ -158,15 +158,15 @@ def atan2(y, x):
     if key in memo:
         return SymReal(memo[key])
     th = c.fresh("real", "atan2")
-    n = c.fresh("real", "norm")
+    n = _sqrt(SymReal(xe * xe + ye * ye)).e  # shared with any sqrt(x^2+y^2) the code or the oracle forms
     memo[key] = th
-    c.add(th >= -PI_UP, th <= PI_UP, n >= 0, n * n == xe * xe + ye * ye)
     co, si = _cs(SymReal(th))
-    c.add(n * co == xe, n * si == ye)
+    ax = [th >= -PI_UP, th <= PI_UP, n * co == xe, n * si == ye]
     # atan2(0, 0) = 0; atan2(0, x>0) = 0; sign of the result is the sign of y
-    c.add(z3.Implies(z3.And(ye == 0, xe >= 0), th == 0))
-    c.add(z3.Implies(ye > 0, th > 0), z3.Implies(ye < 0, th < 0))
-    c.add(z3.Implies(z3.And(ye == 0, xe < 0), th >= PI))
+    ax.append(z3.Implies(z3.And(ye == 0, xe >= 0), th == 0))
+    ax += [z3.Implies(ye > 0, th > 0), z3.Implies(ye < 0, th < 0)]
+    ax.append(z3.Implies(z3.And(ye == 0, xe < 0), th >= PI))
+    c.add_lazy([th], ax)
     return SymReal(th)
 
 
